@@ -26,6 +26,20 @@ claimed = {
          "§5 C12"),
  "C13": ("PX", "Enumeration of 1,800 retry delay configurations (fixed, backoff x 3 factors x 2 max delays, random range, four delay functions; magnitudes 1us..7h+1ns; 7 jitter settings; 3 max durations; attempt durations) with eight consecutive failures each, every random draw an enumerated choice point over {0, 0.5, 1-2^-53} (first 3 draws quick / 5 thorough): every scheduled delay is compared with the un-jittered value prescribed by the statement, the jitter envelope, maxDelay, monotonicity, the remaining max duration, and the virtual instant of the next attempt.",
          "§5 C13"),
+ "C01": ("PX", "Enumeration of ~20k (quick) programs: stacks of 1-3 configurations from a 26-element alphabet over all eight policies x outcome scripts x histories of 2-3 executions on the same instances, sync and async; a transparent probe between every two layers records what each layer was asked and answered, and every layer is checked against its own documented behaviour (retry, breaker and limiter reference models, bulkhead, timeout, hedge, fallback, cache contracts), plus the caller's result, the verdict reported to the completion listeners and the public state of stateful policies after every execution. Stacks with timeout/hedge are explored over all schedules within deviation bound 1.",
+         "§5 C01"),
+ "C02": ("PX", "Enumeration of ~35k retry programs (maxRetries -1..3 in both spellings x 4 handle x 5 abort condition sets x ReturnLastFailure x all outcome scripts up to length 4/5, max-duration programs) against the retry layer contract (invocation count, stop reason, ExceededError contents, unchanged stopping outcome), plus SX exploration (deviation bound 2/3) of concurrent, successive and async executions through one policy instance whose invocation counts and results must equal those of their own sequential runs.",
+         "§5 C02"),
+ "C10": ("PX", "Enumeration of fallback programs: 4 outputs x 19 handle-condition sets x 8 inner compositions (producing plain results, handled/unhandled errors, ExceededError, ErrOpen, ErrFull, rate-limit and timeout errors) x 7 outcomes, each run twice, checked against the fallback layer contract (applied iff handled failure and not cancelled, exactly once, sees the failure as last result, output replaces the result and is classified by the same conditions, pass-through otherwise) and its events; plus SX exploration of cancellation landing around the fallback's own failure listener.",
+         "§5 C10"),
+ "C11": ("PX", "Enumeration of cache programs: configured key x initial content x CacheIf x 7 inner compositions x outcomes x histories of three executions with context keys {absent, a, b, empty, non-string}, and the cache nested inside a retry policy, run on the real policy with an instrumented cache and compared with a plain map (hits skip everything inside, misses pass through and store iff cacheable, key precedence, no key no access, state of inner policies).",
+         "§5 C11"),
+ "C14": ("SX", "Race-detector build in which the scheduler's baton hand-offs are hidden from the detector (runtime.RaceDisable around them; positive and negative controls in the litmus suite), so every explored schedule is judged by happens-before: 93 scenarios (each policy and every ordered pair with a sync + async execution and a standalone caller; hedge over / timeout over each policy; hedge attempts finishing at the same instant; async Cancel), deviation bound 1 quick / 2 thorough; race reports, panics and deadlocks are violations.",
+         "§5 C14"),
+ "C16": ("PX", "The C01 program space with every listener of every builder registered and the event log of each execution checked against the event contract (counts, order of OnRetryScheduled/OnRetry/next attempt, OnRetriesExceeded/OnAbort situations, breaker events = reference transitions with specific+generic pairs, rejection/timeout/fallback/hedge/cache events exactly when the occurrence happened, policy OnSuccess/OnFailure per classified result), plus SX exploration of concurrent executions sharing listeners with per-execution attribution through a context value.",
+         "§5 C16"),
+ "C17": ("PX", "The C01 program space with the execution statistics sampled at every point user code runs (function entry and exit, every listener, fallback, done event, probes) and compared with the harness's own counts: Attempts = 1 + retries + hedges started, Executions = invocations completed (exact sequentially, bounded during overlapping hedge attempts, exact at quiescence), IsFirstAttempt/IsRetry/IsHedge, LastResult/LastError of the previous attempt.",
+         "§5 C17"),
 }
 na = {}
 props = [json.loads(l) for l in open('/verif/properties.jsonl')]
